@@ -35,6 +35,8 @@ def const(name, header="", **kw):
 
 FE = "FieldElement for BaseElement"
 SF = "StarkField for BaseElement"
+# trait defaults of math/src/field/traits.rs instantiated per field (C07 round 2)
+GROU = dict(kind="fn", name="get_root_of_unity", header="trait StarkField*", role="free", file="math/src/field/traits.rs")
 
 F64 = dict(
     module="F64", prefix="f64", file="math/src/field/f64/mod.rs", inner=U(64), posint=U(64),
@@ -62,6 +64,7 @@ F64 = dict(
         dict(kind="fn", name="exp_vartime", header="trait FieldElement*", role="method", file="math/src/field/traits.rs", out="f64_exp_vartime"),
         const("MODULUS", SF), const("MODULUS_BITS", SF), const("GENERATOR", SF),
         const("TWO_ADICITY", SF), const("TWO_ADIC_ROOT_OF_UNITY", SF),
+        dict(GROU, out="f64_get_root_of_unity"),
         fn("try_from", "TryFrom < u64 > for BaseElement", out="f64_try_from_u64", **{"as": "try_from_u64"}),
         fn("try_from", "TryFrom < u128 > for BaseElement", out="f64_try_from_u128", **{"as": "try_from_u128"}),
         fn("try_from", "TryFrom < [ u8 ; 8 ] > for BaseElement", out="f64_try_from_bytes", **{"as": "try_from_bytes"}),
@@ -100,6 +103,8 @@ F62 = dict(
         fn("div", "Div for BaseElement"),
         const("MODULUS", SF), const("MODULUS_BITS", SF), const("GENERATOR", SF),
         const("TWO_ADICITY", SF), const("TWO_ADIC_ROOT_OF_UNITY", SF),
+        dict(kind="fn", name="exp_vartime", header="trait FieldElement*", role="method", file="math/src/field/traits.rs", out="f62_exp_vartime"),
+        dict(GROU, out="f62_get_root_of_unity"),
         fn("try_from", "TryFrom < u64 > for BaseElement", out="f62_try_from_u64", **{"as": "try_from_u64"}),
         fn("try_from", "TryFrom < u128 > for BaseElement", out="f62_try_from_u128", **{"as": "try_from_u128"}),
         fn("mul", "ExtensibleField < 2 > for BaseElement", role="ring", out="f62_ext2_mul"),
@@ -142,9 +147,10 @@ F128 = dict(
              register=("eq", "f128_eq", [("self", ("elem",)), ("other", ("elem",))], ("bool",))),
         fn("inv", FE),
         fn("div", "Div for BaseElement"),
-        dict(EXPV, out="f128_exp"),
+        dict(EXPV, out="f128_exp", also=["exp"]),    # `exp` = `exp_vartime` (trait default, guarded above)
         const("MODULUS", SF), const("MODULUS_BITS", SF), const("GENERATOR", SF),
         const("TWO_ADICITY", SF), const("TWO_ADIC_ROOT_OF_UNITY", SF),
+        dict(GROU, out="f128_get_root_of_unity"),
         fn("try_from", "TryFrom < u128 > for BaseElement", out="f128_try_from_u128", **{"as": "try_from_u128"}),
         fn("mul", "ExtensibleField < 2 > for BaseElement", role="ring", out="f128_ext2_mul"),
         fn("mul_base", "ExtensibleField < 2 > for BaseElement", role="ring", out="f128_ext2_mul_base"),
